@@ -50,6 +50,14 @@ def cases(rng, quick, gr):
              "tan": ["1", "0.3"], "arcsin": ["0.5", "-0.25"], "arccos": ["0.5", "0"], "arctan": ["3", "-0.7"],
              "sinh": ["1", "0.25", "1+1j"], "cosh": ["1", "2", "0.5j"], "tanh": ["0.5", "3"], "arcsinh": ["2", "-1.5"],
              "arccosh": ["2", "1.5"], "arctanh": ["0.5", "-0.25"], "sqrt": ["4", "2", "0.25", "n"]}
+    # complex arguments on both sides of |Re| = 1 (off the branch cuts), and real arguments whose results are tiny or huge
+    cargs = ["1.5+2j", "3-1j", "-2+0.5j", "0.5+2j", "-0.25-3j", "z", "1+1j", "0.5j"]
+    small = {"sin": ["0.00001", "3.1415", "1e-7"], "cos": ["1.5707", "1.5708"], "tan": ["0.0000123", "3.14159"], "sinh": ["1e-6"],
+             "tanh": ["1e-6", "20"], "arcsin": ["1e-6", "0.999999", "1", "-1"], "arccos": ["0.999999", "1", "-1"], "arctan": ["1e-8", "1e8"],
+             "exp": ["-30", "1e-9", "40"], "log": ["1.000001", "1e-10", "1e10"], "arctanh": ["1e-7", "0.999999"], "arccosh": ["1.000001", "1e6"],
+             "arcsinh": ["1e-7", "1e7"], "cosh": ["1e-4", "30"], "sqrt": ["1e-20", "1e20", "2+2j"]}
+    for f in fargs:
+        fargs[f] = fargs[f] + cargs + small.get(f, [])
     for f, al in fargs.items():
         for a in al:
             yield {"tag": "function", "text": HDR + DECLS + "Op(%s(%s), 2*%s(%s)+1, %s(%s)**2) | 0\n" % (f, a, f, a, f, a)}
